@@ -37,6 +37,12 @@ func writeOverlayJSON(testFiles map[string]string, extraReplace map[string]strin
 	rep := map[string]string{}
 	for virt, real := range paths {
 		rep[virt] = real
+		if src, ok := harnessRewrites[virt]; ok {
+			// a harness file from which non-compiling declarations were removed: the native build uses the same text
+			p := filepath.Join(outDir(), "rewritten_"+filepath.Base(virt))
+			os.WriteFile(p, src, 0o644)
+			rep[virt] = p
+		}
 	}
 	for virt, real := range testFiles {
 		rep[virt] = real
